@@ -46,6 +46,8 @@ impl RowsetWriter {
     }
 
     pub async fn create_dir(&self) -> StorageResult<()> {
+        #[cfg(risinglight_verif)]
+        crate::verif::crash_point("rowset.mkdir.before", &self.directory, &[]);
         if !self.io_backend.is_in_memory() {
             tokio::fs::create_dir(&self.directory)
                 .await
@@ -72,12 +74,18 @@ impl RowsetWriter {
                     .open(path.as_ref())
                     .await?;
 
+                #[cfg(risinglight_verif)]
+                crate::verif::crash_point("file.created", path.as_ref(), &data);
                 let mut writer = BufWriter::new(file);
                 writer.write_all(&data).await?;
                 writer.flush().await?;
+                #[cfg(risinglight_verif)]
+                crate::verif::crash_point("file.written", path.as_ref(), &[]);
 
                 let file = writer.into_inner();
                 file.sync_data().await?;
+                #[cfg(risinglight_verif)]
+                crate::verif::crash_point("file.synced", path.as_ref(), &[]);
             }
         }
 
@@ -115,6 +123,8 @@ impl RowsetWriter {
         }
 
         Self::sync_dir(&self.io_backend, &self.directory).await?;
+        #[cfg(risinglight_verif)]
+        crate::verif::crash_point("rowset.dir_synced", &self.directory, &[]);
 
         Ok(())
     }
